@@ -27,7 +27,9 @@ RULE = (
     "case = 1-2 collections of 300-900 rows with one informative feature (optionally negated => lower-is-better), "
     "noise features, estimator kind, override flag, label encoding pm1/01/bool, tsv/parquet, folds 2-4, FDR in "
     "{0.0731, 0.1279, 0.2113}. Non-trivial: the fallback branch was taken, or the returned direction is "
-    "lower-is-better, or the label encoding is not 0/1. Distinct = distinct canonical JSON."
+    "lower-is-better, or the label encoding is not 0/1. In addition 16 (quick) / 96 (thorough) command-line runs in which brew "
+    "is replaced by its fall-back outcome (a feature's values with their direction): the result files must follow that direction. "
+    "Distinct = distinct canonical JSON."
 )
 ASSUMPTIONS = [
     "the best feature is counted at the training FDR on the training sets, the returned scores at the evaluation FDR on all "
@@ -106,7 +108,87 @@ def _make_model(case):
     return mokapot.Model(est, scaler=recorder.RecScaler(identity=True), train_fdr=thr, max_iter=2, override=case["override"])
 
 
+def _check_cli_direction(case):
+    """The command line hands brew's direction on to the confidence step: with brew replaced by its own fall-back outcome
+    (the best feature's values, lower-is-better) the result files must rank low values first."""
+    import contextlib
+    import io
+
+    import mokapot.peps as mpeps
+    from mokapot import mokapot as cli
+
+    from core import Violation
+    from refs import accepted_ref
+
+    thr = 0.0731
+    n = case["n"]
+    df, meta = datagen.psm_frame(case["seed"], [1] * n, key_arity=2, n_noise=1, sep=4.0, with_rid=False,
+                                 informative_sign=-1.0 if case["lowbetter"] else 1.0)
+    is_t = [bool(t) for t in meta["is_target"]]
+    f0 = [float(v) for v in df["f0"]]
+    desc = not case["lowbetter"]
+    q = tdc_ref(f0, is_t, desc)
+    _, amb = labels_ref(q, is_t, thr)
+    if amb:
+        raise Rejected("exact q-value within float32 rounding of test_fdr")
+    want_acc = len(accepted_ref(f0, is_t, thr, desc))
+    config_inject.install_pep_stub()
+    saved_pep = mpeps.PEP_ALGORITHM["qvality"]
+    real_brew = cli.brew
+
+    def fallback_brew(datasets, model=None, **kw):
+        scores = [np.asarray(d.read_data(columns=["f0"])["f0"].values, dtype=float) for d in datasets]
+        return datasets, [], scores, [desc] * len(datasets)
+
+    with scratch_dir() as tmp:
+        pin = tmp / "exp.pin"
+        datagen.write_table(df, pin)
+        mpeps.PEP_ALGORITHM["qvality"] = mpeps.PEP_ALGORITHM["verif_stub"]
+        cli.brew = fallback_brew
+        try:
+            with contextlib.redirect_stderr(io.StringIO()), contextlib.redirect_stdout(io.StringIO()):
+                guarded(cli.main, [str(pin), "--dest_dir", str(tmp / "out"), "--test_fdr", str(thr), "--keep_decoys", "--verbosity", "0",
+                                   "--peps_algorithm", "qvality"], sig="cli")
+        finally:
+            cli.brew = real_brew
+            mpeps.PEP_ALGORITHM["qvality"] = saved_pep
+        tp = pd.read_csv(tmp / "out" / "targets.psms", sep="\t", float_precision="round_trip", dtype={"PSMId": str})
+    sc = tp["score"].values.astype(float)
+    require(len(tp) == sum(is_t), "cli-direction", f"{len(tp)} target PSMs reported for {sum(is_t)} target spectra")
+    mono = np.diff(sc) <= 0 if desc else np.diff(sc) >= 0
+    require(bool(np.all(mono)), "cli-direction-ignored",
+            f"command line, brew returned higher-is-better={desc}: targets.psms is not ordered best score first "
+            f"(first scores {sc[:4].tolist()})")
+    got_acc = int((tp["q-value"] <= thr).sum())
+    require(got_acc == want_acc, "cli-direction-ignored",
+            f"command line, brew returned higher-is-better={desc}: {got_acc} PSMs accepted at {thr}, the feature accepts {want_acc} ranking "
+            f"{'high' if desc else 'low'} values first")
+    return {"nontrivial": case["lowbetter"], "classes": ["cli", "cli-lower-is-better" if case["lowbetter"] else "cli-higher-is-better"],
+            "counters": {"cli_runs": 1}}
+
+
+def extra(tier, seed, shard, nshards, stats):
+    from core import Violation
+
+    reps = 1 if tier == "quick" else 6
+    for r in range(reps):
+        case = {"kind": "cli", "seed": seed * 100003 + shard * 101 + r, "n": 300 + 40 * ((shard + r) % 5), "lowbetter": (shard + r) % 3 != 0}
+        stats.evaluations += 1
+        try:
+            obs = _check_cli_direction(case)
+        except Rejected as rej:
+            stats.rejected += 1
+            stats.rejected_reasons[str(rej)[:80]] += 1
+            continue
+        except Violation as v:
+            stats.failure = {"case": case, "signature": v.signature, "message": v.message}
+            return
+        stats.observe(case, obs)
+
+
 def check(case):
+    if case.get("kind") == "cli":
+        return _check_cli_direction(case)
     import mokapot
 
     config_inject.install_pep_stub()
